@@ -95,14 +95,82 @@ theorem either_foldM_cons (x : A) (xs : List A) (z : B) (f : B → A → GoM (Ei
   simp only [EitM.foldM, EitM.ops]
   congr 1
 
-/-- For Try the loop hands a failing step's value back unchanged, the chain re-wraps its error:
-    the two agree whenever the step is not the zero value. -/
-theorem try_foldM_cons (x : A) (xs : List A) (z : B) (f : B → A → GoM (Try B)) (t : Try B)
-    (hf : f z x = pure t) (ht : t ≠ .failure .nil) :
+/-- HYPOTHESIS-FREE (audit finding 14): the loop, for EVERY step function (it may log, panic, fail, return the
+    zero value): run the step — once, with all its effects —, then continue on a Success and hand a Failure back
+    as it is. -/
+theorem try_foldM_cons_eq (x : A) (xs : List A) (z : B) (f : B → A → GoM (Try B)) :
+    TryM.foldM (x :: xs) z f = (f z x >>= fun t =>
+      match t with
+      | .success s => TryM.foldM xs s f
+      | .failure e => pure (.failure e)) := by
+  simp only [TryM.foldM]
+  congr 1
+
+/-- HYPOTHESIS-FREE: the `FlatMap` chain is the loop WITH THE ZERO-VALUE GUARD — the only difference between the
+    two is what happens when the step returns `Try{}` / `Failure(nil)`: the loop returns it, `FlatMap` panics. -/
+theorem try_foldM_chain_eq (x : A) (xs : List A) (z : B) (f : B → A → GoM (Try B)) :
+    (TryM.ops).flatMap (f z x) (fun b => TryM.foldM xs b f) = (f z x >>= fun t =>
+      match t with
+      | .success s => TryM.foldM xs s f
+      | .failure .nil => throw "ErrNotInit"
+      | .failure e => pure (.failure e)) := by
+  simp only [TryM.ops]
+  congr 1
+  funext t
+  cases t with
+  | success a => simp [TryM.flatMap]
+  | failure e => cases e <;> simp [TryM.flatMap, Try.failedGet]
+
+/-- GENERAL form of `try_foldM_cons`: the step may have EFFECTS `act` (a log, other callbacks — any `GoM`
+    computation of any result type) before it returns `t`. -/
+theorem try_foldM_cons_eff {X : Type} (x : A) (xs : List A) (z : B) (f : B → A → GoM (Try B)) (t : Try B)
+    (act : GoM X) (hf : f z x = act >>= fun _ => pure t) (ht : t ≠ .failure .nil) :
     TryM.foldM (x :: xs) z f = (TryM.ops).flatMap (f z x) (fun b => TryM.foldM xs b f) := by
-  simp only [TryM.foldM, TryM.ops, hf, pure_bind]
+  simp only [TryM.foldM, TryM.ops, hf, bind_assoc, pure_bind]
+  congr 1
+  funext _
   cases t with
   | success a => simp [TryM.flatMap]
   | failure e => cases e <;> simp_all [TryM.flatMap, Try.failedGet]
+
+/-- MOST GENERAL form: the step never returns the zero value — stated, as `C17.NoNil`, as invariance of the step
+    under the guard the library applies; no other restriction (the result may depend on the effects). -/
+theorem try_foldM_cons_noNil (x : A) (xs : List A) (z : B) (f : B → A → GoM (Try B))
+    (hf : (f z x >>= fun t => match t with
+            | .failure .nil => (throw "ErrNotInit" : GoM (Try B))
+            | t => pure t) = f z x) :
+    TryM.foldM (x :: xs) z f = (TryM.ops).flatMap (f z x) (fun b => TryM.foldM xs b f) := by
+  rw [try_foldM_cons_eq, try_foldM_chain_eq]
+  conv => lhs; rw [← hf]
+  simp only [bind_assoc]
+  congr 1
+  funext t
+  cases t with
+  | success a => simp
+  | failure e => cases e <;> simp
+
+/-- For Try the loop hands a failing step's value back unchanged, the chain re-wraps its error:
+    the two agree whenever the step is not the zero value.  (The effect-free instance of `try_foldM_cons_eff`.) -/
+theorem try_foldM_cons (x : A) (xs : List A) (z : B) (f : B → A → GoM (Try B)) (t : Try B)
+    (hf : f z x = pure t) (ht : t ≠ .failure .nil) :
+    TryM.foldM (x :: xs) z f = (TryM.ops).flatMap (f z x) (fun b => TryM.foldM xs b f) :=
+  try_foldM_cons_eff x xs z f t (pure ()) (by simpa using hf) ht
+
+/-- the excluded branch: a step returning the zero value (after any effects) — the loop returns it, the chain panics -/
+theorem try_foldM_cons_zero {X : Type} (x : A) (xs : List A) (z : B) (f : B → A → GoM (Try B)) (act : GoM X)
+    (hf : f z x = act >>= fun _ => pure (.failure .nil)) :
+    TryM.foldM (x :: xs) z f = (act >>= fun _ => pure (.failure .nil)) ∧
+    (TryM.ops).flatMap (f z x) (fun b => TryM.foldM xs b f) = (act >>= fun _ => throw "ErrNotInit") := by
+  rw [try_foldM_cons_eq, try_foldM_chain_eq, hf]
+  simp
+
+-- non-vacuity: a step that logs and then fails
+example : ∃ (f : Nat → Nat → GoM (Try Nat)) (act : GoM Unit) (t : Try Nat),
+    f 0 1 = (act >>= fun _ => pure t) ∧ t ≠ .failure .nil ∧ f 0 1 ≠ pure t :=
+  ⟨fun _ _ => do emit "k"; pure (.failure (.code 3)), emit "k", .failure (.code 3), rfl, by decide, by
+    intro h
+    have := congrArg (fun m => (GoM.exec m).2) h
+    revert this
+    decide⟩
 
 end FpVerif.Spec.C01
